@@ -51,7 +51,7 @@ def recv_campaign(ctx, prop, n, profiles, tag='recvfeed'):
         vs = recvfeed.oracles(t, o).get(prop, [])
         for key, what in vs[:1]:
             small = t
-            if len(res.violations) < 3:
+            if len(res.violations) < 3 and key not in ('sync-stream-held-up',):      # that clause speaks about what was DELIVERED: dropping deliveries makes a misleading replay
                 small = shrink_trial(t, lambda c: any(k == key for k, _ in recvfeed.oracles(c, recvfeed.run_impl(c)).get(prop, [])))
             res.violations.append(Violation(key, what, {'feed': 'recv', 'trial': small}))
         if model is not None:
